@@ -157,6 +157,31 @@ def gadget_union(rng, max_n=9):
     return n, atts
 
 
+def medium_framework(rng, lo=10, hi=40):
+    """sparse frameworks of lo..hi arguments: mostly forward attacks (few cycles), a hub with many attackers,
+    some 2-cycles and self-attacks; for checks that compare with the model without an exponential judge"""
+    n = rng.randint(lo, hi)
+    atts = set()
+    for i in range(1, n):
+        for _ in range(1 if rng.random() < 0.7 else 2):
+            atts.add((rng.randrange(max(0, i - 6), i), i))
+    hub = rng.randrange(n)
+    for _ in range(rng.randint(7, 12)):
+        a = rng.randrange(n)
+        if a != hub:
+            atts.add((a, hub))
+    for _ in range(rng.randint(0, 3)):
+        a, b = rng.randrange(n), rng.randrange(n)
+        atts.add((a, b))
+        if rng.random() < 0.5:
+            atts.add((b, a))
+    if rng.random() < 0.4:
+        a = rng.randrange(n)
+        atts.add((a, a))
+    atts = list(atts)
+    rng.shuffle(atts)
+    return n, atts
+
 def all_digraphs(n):
     pairs = [(a, b) for a in range(n) for b in range(n)]
     for mask in range(1 << len(pairs)):
